@@ -19,7 +19,8 @@ ForAll(recv) == {
     M(recv, "vf_sarr", Is(T({Arr({"String"})})), FALSE),
     M(recv, "vf_opt", Is(ClsT({"String", "NilClass"})), FALSE),
     M(recv, "vf_self", R("self"), FALSE),
-    M(recv, "vf_arg", R("arg"), TRUE) }
+    M(recv, "vf_arg", R("arg"), TRUE),
+    M(recv, "vf_cond", R("cond"), TRUE) }
 MCMethods ==
     ForAll("Array") \cup ForAll("Hash") \cup ForAll("String") \cup ForAll("Integer")
     \cup { M("Array", "vf_unify_nil", R("unify_nil"), FALSE), M("Array", "vf_self_int", R("self_int"), FALSE),
